@@ -631,6 +631,71 @@ example : exEnv.Ok := asciiEnv_ok _ _ (by decide) (by decide)
 example : exA ∈ live exEnv (exOps.take 3) ∧ exA.mm = .factory ∧
     answer exEnv (exOps.take 1) (.mmLang "FLOW" 0) = .mm (.made 0 1 0) := by decide
 
+/-! ### non-vacuity of the `*_for_file` / `sparesAll` theorems -/
+
+def exG : LangDesc := { uid := 6, name := "Gamma", pattern := some "*.g", mm := .factory }
+def exH : LangDesc := { uid := 7, name := "Eta", pattern := some "*.g", mm := .inst 9 }
+def exBad : LangDesc := { uid := 8, name := "Bad", pattern := some "*.g", mm := .badFactory }
+
+/-- the history before the cached request of the examples below -/
+def exPre : List Op := [.regLang exA, .regLang exG]
+
+/-- calls that spare the entry of `flow` although two of them carry keyword arguments
+(for another language, by name and by file) — `C26_cache_hit` does not apply, `C26_cache_hit_until` does -/
+def exSpare : List Op :=
+  [.mmLang "GAMMA" 1, .mmForFile "x.g" 2, .regLang exB, .lang "flow", .mmsForFile "a.f", .clearGens]
+
+example : sparesAll exEnv (exEnv.lower "Flow") (live exEnv exPre) exSpare = true ∧
+    exSpare.all Op.keepsCache = false ∧
+    answer exEnv exPre (.mmLang "Flow" 2) = .mm (.made 0 1 2) ∧
+    answer exEnv (exPre ++ .mmLang "Flow" 2 :: exSpare) (.mmLang "FLOW" 0) = .mm (.made 0 1 2) := by decide
+
+/-- the condition is sharp: a keyword-argument request resolving to the same language — by
+name in another case, or through the one file pattern — is not spared, and does replace the entry -/
+example : sparesAll exEnv "flow" (live exEnv exPre) [.mmLang "FLOW" 1] = false ∧
+    sparesAll exEnv "flow" (live exEnv exPre) [.mmForFile "a.f" 1] = false ∧
+    sparesAll exEnv "flow" (live exEnv exPre) [.clearLangs] = false ∧
+    answer exEnv (exPre ++ [.mmLang "Flow" 2, .mmForFile "a.f" 1]) (.mmLang "FLOW" 0) = .mm (.made 1 1 1) := by
+  decide
+
+/-- when two languages accept the file, `metamodel_for_file` with arguments raises and spares every entry -/
+example : sparesAll exEnv "gamma" (live exEnv (exPre ++ [.regLang exH])) [.mmForFile "x.g" 1] = true ∧
+    answer exEnv (exPre ++ [.regLang exH]) (.mmForFile "x.g" 1) = .regError := by decide
+
+/-- the hypothesis of `C26_mm_for_file` (1) / `C26_cache_hit_file` is met: `exA` is the one live
+language accepting `a.f`, and the call answers what `metamodel_for_language("Flow", …)` answers -/
+example : ∃ d, UniqueMatch exEnv (live exEnv exPre) "a.f" d ∧ exEnv.lower d.name = "flow" :=
+  (resolvesTo_iff _ _ _ _).1 (by decide)
+
+example : (run exEnv St.init (exPre ++ [.mmForFile "a.f" 1, .mmLang "FLOW" 0, .mmForFile "a.f" 0])).2 =
+    (run exEnv St.init (exPre ++ [.mmLang "Flow" 1, .mmLang "FLOW" 0, .mmForFile "a.f" 0])).2 ∧
+    (run exEnv St.init (exPre ++ [.mmForFile "a.f" 1, .mmLang "FLOW" 0, .mmForFile "a.f" 0])).2.drop 2 =
+      [.mm (.made 0 1 1), .mm (.made 0 1 1), .mm (.made 0 1 1)] := by decide
+
+/-- … and the hypothesis of (2): nothing accepts `a.zz`, two languages accept `x.g` -/
+example : (¬ ∃ d, UniqueMatch exEnv (live exEnv exPre) "a.zz" d) ∧
+    (¬ ∃ d, UniqueMatch exEnv (live exEnv (exPre ++ [.regLang exH])) "x.g" d) := by
+  constructor
+  · rintro ⟨d, hd⟩
+    have h1 := (resolvesTo_iff exEnv _ _ _).2 ⟨d, hd, rfl⟩
+    have h2 : ∀ d, d ∈ live exEnv exPre →
+        resolvesTo exEnv (live exEnv exPre) "a.zz" (exEnv.lower d.name) = false := by decide
+    rw [h2 d hd.1] at h1; cases h1
+  · rintro ⟨d, hd⟩
+    have h1 := (resolvesTo_iff exEnv _ _ _).2 ⟨d, hd, rfl⟩
+    have h2 : ∀ d, d ∈ live exEnv (exPre ++ [.regLang exH]) →
+        resolvesTo exEnv (live exEnv (exPre ++ [.regLang exH])) "x.g" (exEnv.lower d.name) = false := by decide
+    rw [h2 d hd.1] at h1; cases h1
+
+/-- `metamodels_for_file`: the cached factory product and the instance, in registry order, both
+then-cached; with a language whose factory does not produce a meta-model the call raises -/
+example : (run exEnv St.init (exPre ++ [.regLang exH, .mmLang "gamma" 1, .mmsForFile "x.g",
+      .mmLang "ETA" 0, .langsForFile "x.g"])).2.drop 3 =
+    [.mm (.made 0 6 1), .mms [.made 0 6 1, .given 9], .mm (.given 9), .descs [exG, exH]] := by decide
+
+example : answer exEnv (exPre ++ [.regLang exH, .regLang exBad]) (.mmsForFile "x.g") = .regError ∧
+    exBad.mm.usable = false ∧ exG.mm.usable = true ∧ exH.mm.usable = true := by decide
+
 /-- character classes in the driver's environment: the class pattern accepts `a.c` and
 `a.h` but not its own text; asking with the pattern text still finds both languages, a
 bracketed literal file name is found by its own text and by the file it describes -/
